@@ -350,6 +350,12 @@ func getLocalAddresses(c diam.Conn) ([]datatype.Address, error) {
 	hostIPs := strings.Split(addr, "/")
 	addresses := make([]datatype.Address, 0, len(hostIPs))
 	for _, ipStr := range hostIPs {
+		// IPv6 literals are bracketed in host:port notation ("[2001:db8::1]:3868")
+		// and may carry a zone ("fe80::1%eth0"), neither of which ParseIP accepts.
+		ipStr = strings.TrimSuffix(strings.TrimPrefix(ipStr, "["), "]")
+		if i := strings.IndexByte(ipStr, '%'); i >= 0 {
+			ipStr = ipStr[:i]
+		}
 		ip := net.ParseIP(ipStr)
 		if ip != nil {
 			if ip.IsLoopback() {
